@@ -123,7 +123,7 @@ func anywayCase(k *engine.Case) {
 	}
 	done := make(chan struct{})
 	go func() { wgC.Wait(); wgP.Wait(); close(done) }()
-	starved := 0
+	starved, quiet := 0, 0
 	finished := false
 	var picture []string
 poll:
@@ -134,6 +134,16 @@ poll:
 			break poll
 		case <-time.After(time.Millisecond):
 		}
+		if Q.IsQuiet() {
+			// nothing runs, nothing sleeps: a true fixed point with work left undone
+			quiet++
+			if quiet == 3 {
+				picture = Q.Describe()
+				break poll
+			}
+			continue
+		}
+		quiet = 0
 		asleep, onMutex, otherCons := 0, 0, 0
 		snap := Q.Snapshot()
 		for _, g := range snap {
@@ -158,6 +168,27 @@ poll:
 	}
 	k.Evals(1)
 	if !finished {
+		if quiet >= 3 {
+			mu.Lock()
+			var perr error
+			for _, e := range prodErr {
+				if e != nil {
+					perr = e
+				}
+			}
+			returned, served := len(prodErr), 0
+			for _, n := range got {
+				served += n
+			}
+			mu.Unlock()
+			if perr != nil {
+				k.Fail("waiting-add-failed", "%s: a waiting add returned %v although consumers made room; consumers are left parked: %v", b.name, perr, picture)
+			} else {
+				k.Fail("parked-beside-items", "%s: %d of %d producers have returned nil from the waiting add and %d of %d items were handed out, yet every remaining goroutine is parked (fixed point): a consumer sleeps in Pop beside a non-empty queue: %v", b.name, returned, np, served, nc, picture)
+			}
+			go b.close()
+			return
+		}
 		if starved >= 400 {
 			k.Fail("consumers-starved-by-waiting-add", "%s holds %d item(s) and %d producer(s) are in the waiting add; in 400 observations at least 1 ms apart a producer was asleep in its retry pause while every unfinished consumer was parked on the queue's mutex: %v", b.name, size, np, picture)
 		} else {
